@@ -581,6 +581,11 @@ class AccessMixin(object):
     if k == 'any' and cname in self.reg.classes:
       return z3.And(v.t != 0, z3.Or(*[self.dyn_class(st, v.t) == self.class_id(s) for s in self.subclasses_of(cname)]))
     if cname not in self.reg.classes:
+      if k == 'any':       # a python class the sidecar does not model: an uninterpreted test
+        return z3.And(v.t != 0, z3.Function('is_py_' + cname, I, z3.BoolSort())(v.t))
+      if k == 'ref' and cname in ('Exception', 'BaseException'):
+        from .stmt import exc_is
+        return z3.BoolVal(exc_is(v.ty.name, cname)) if not v.ty.opt else z3.And(v.t != 0, z3.BoolVal(exc_is(v.ty.name, cname)))
       raise Unsupported('isinstance against undeclared class %s' % cname)
     if k == 'ref' and self.is_subclass(v.ty.name, cname):
       return (v.t != 0) if v.ty.opt else z3.BoolVal(True)
